@@ -300,7 +300,9 @@ func runStat(c StatCase, rec *h.Rec) error {
 				if i == 0 {
 					acc1 = r1
 				} else {
-					rlkP[0].AggregateShares(acc1, r1, &acc1)
+					if err := callErr(rlkP[0].AggregateShares, acc1, r1, &acc1); err != nil {
+						return h.Failf("C14:RKG:aggregation-failed", "repetition %d round one: %v", rep, err)
+					}
 				}
 			}
 			for i := 0; i < n; i++ {
@@ -308,11 +310,15 @@ func runStat(c StatCase, rec *h.Rec) error {
 				if i == 0 {
 					acc2 = r2[0]
 				} else {
-					rlkP[0].AggregateShares(acc2, r2[i], &acc2)
+					if err := callErr(rlkP[0].AggregateShares, acc2, r2[i], &acc2); err != nil {
+						return h.Failf("C14:RKG:aggregation-failed", "repetition %d round two: %v", rep, err)
+					}
 				}
 			}
 			rlk := rlwe.NewRelinearizationKey(params, ek)
-			rlkP[0].GenRelinearizationKey(acc1, acc2, rlk)
+			if err := callErr(rlkP[0].GenRelinearizationKey, acc1, acc2, rlk); err != nil {
+				return h.Failf("C14:RKG:GenRelinearizationKey-error", "repetition %d: %v", rep, err)
+			}
 			var racc noiseAcc
 			_, err := rowCheckAcc(params, &rlk.GadgetCiphertext, c.Key, s2, idealIn.Value, erowRLK, &racc)
 			if err != nil && judged {
